@@ -170,6 +170,22 @@ func (vSlot) OnCompleted(ctx *base.EntryContext) {
 	}
 }
 
+func (r *vRecorder) handlerRan() bool {
+	r.mu.Lock()
+	defer r.mu.Unlock()
+	for _, e := range r.events {
+		if e == "handler" {
+			return true
+		}
+	}
+	for _, e := range r.drv {
+		if e == "handler" {
+			return true
+		}
+	}
+	return false
+}
+
 // VHit is called by every driver handler first thing: records the invocation, then behaves as told.
 func VHit(outcome string) error {
 	vrec.driver("handler")
@@ -184,6 +200,10 @@ func VHit(outcome string) error {
 	switch outcome {
 	case "err":
 		return VErr
+	case "errblk":
+		// the handler's own error is a bare *base.BlockError (e.g. a nested / downstream Sentinel call of the handler
+		// was rejected): for the contract it is a handler error like any other (class outcome "err")
+		return base.NewBlockError(base.WithBlockType(base.BlockTypeCircuitBreaking))
 	case "panic":
 		panic("verif: handler panics")
 	}
@@ -372,7 +392,7 @@ func VRun(t *testing.T, adapter string, cases []VCase) {
 		for _, c := range cases {
 			outcomes := c.Outcomes
 			if outcomes == nil {
-				outcomes = []string{"ok", "err", "panic"}
+				outcomes = []string{"ok", "err", "errblk", "panic"}
 			}
 			for _, blocked := range []bool{false, true} {
 				for _, oc := range outcomes {
@@ -494,6 +514,11 @@ func vOne(t *testing.T, adapter string, c VCase, blocked bool, outcome string, s
 		}()
 		rejected = c.Send(blocked, outcome)
 	}()
+	if rejected && outcome == "errblk" && vrec.handlerRan() {
+		// entry points that return the handler's error: the BlockError in the response is the handler's own error handed
+		// through, not the adapter's rejection (the handler ran) - Send recognises a rejection by the error type
+		rejected = false
+	}
 	if rejected {
 		vrec.driver("reject")
 	}
@@ -516,6 +541,8 @@ func vOne(t *testing.T, adapter string, c VCase, blocked bool, outcome string, s
 	clsOutcome, layer := outcome, "node"
 	if l, ok := VLayerOf[outcome]; ok {
 		clsOutcome, layer = "err", l
+	} else if outcome == "errblk" {
+		clsOutcome = "err" // the class abstracts from the error value
 	}
 	vEmit(map[string]interface{}{
 		"op": "req", "tr": vTr, "adapter": adapter, "ep": c.Ep, "variant": c.Variant, "want": want,
